@@ -257,7 +257,9 @@ func (f *Frame) canInline(fn *ssa.Function) bool {
 			return false
 		}
 	}
-	if fn.Pkg != nil && !f.e.p.isTargetPkg(fn.Pkg.Pkg.Path()) {
+	// only same-package callees are inlined (cross-package calls are modular: contract or havoc), so that
+	// what is proved about a function does not depend on which other packages happen to be loaded
+	if pp := pkgPathOf(fn); pp != "" && pp != pkgPathOf(f.topFrame().fn) {
 		return false
 	}
 	if fn.Pkg == nil && fn.Parent() == nil {
@@ -486,6 +488,9 @@ func (f *Frame) havocTypeHeaps(t types.Type, depth int) {
 	e := f.e
 	switch u := t.Underlying().(type) {
 	case *types.Slice:
+		if isByteSlice(t) {
+			return // A4b: byte buffers reachable from arguments are not written by uncontracted callees
+		}
 		hn, hs := e.elemHeapName(e.sortOf(u.Elem()))
 		if _, ok := f.st.heaps[hn]; ok || e.predecl[hn+"@0"] {
 			f.st.heaps[hn] = e.havoc(hn+"_hv", hs)
@@ -512,10 +517,35 @@ func (f *Frame) havocAll() {
 	}
 }
 
+// writesByteArgs: callees (by name) that write through []byte arguments. Everything else is assumed to
+// leave the contents of byte slices it receives unchanged (A4b: the Go convention for APIs taking []byte).
+var writeListRe = regexp.MustCompile(`(?i)(read|zeroize|fill|putuint|encode|decode|copy|xorkeystream|seal|open|scan|unmarshal|marshalto|sum)`)
+
+func writesByteArgs(name string) bool {
+	n := normName(name)
+	if k := strings.LastIndex(n, "."); k >= 0 {
+		n = n[k+1:]
+	}
+	return writeListRe.MatchString(n)
+}
+
+func isByteSlice(t types.Type) bool {
+	if s, ok := t.Underlying().(*types.Slice); ok {
+		if b, ok := s.Elem().Underlying().(*types.Basic); ok && b.Kind() == types.Uint8 {
+			return true
+		}
+	}
+	return false
+}
+
 func (f *Frame) havocArgs(c *ssa.CallCommon, args []Value) {
 	e := f.e
+	writes := writesByteArgs(calleeName(c))
 	for i, a := range args {
 		at := c.Args[i].Type()
+		if !writes && isByteSlice(at) {
+			continue
+		}
 		if a.Addr != nil {
 			// escaping interior address: the callee may write the cell
 			fv := e.havoc("esc", e.sortOf(a.Addr.typ))
@@ -765,6 +795,9 @@ func (f *Frame) typeEffects(t types.Type, eff *effects, depth int) {
 	e := f.e
 	switch u := t.Underlying().(type) {
 	case *types.Slice:
+		if depth > 0 && isByteSlice(t) {
+			return
+		}
 		hn, hs := e.elemHeapName(e.sortOf(u.Elem()))
 		eff.names[hn] = hs
 		if depth < 1 {
@@ -875,6 +908,9 @@ func (f *Frame) callEffects(c *ssa.CallCommon, eff *effects, seen map[*ssa.Funct
 			}
 		} else if ct.Assumed {
 			for _, a := range c.Args {
+				if !writesByteArgs(name) && isByteSlice(a.Type()) {
+					continue
+				}
 				f.typeEffects(a.Type(), eff, 0)
 			}
 		}
@@ -882,7 +918,7 @@ func (f *Frame) callEffects(c *ssa.CallCommon, eff *effects, seen map[*ssa.Funct
 		return
 	}
 	if !c.IsInvoke() && !noinline {
-		if fn := c.StaticCallee(); fn != nil && fn.Blocks != nil && depth < maxInlineDepth && e.p.isTargetPkg(pkgPathOf(fn)) {
+		if fn := c.StaticCallee(); fn != nil && fn.Blocks != nil && depth < maxInlineDepth && pkgPathOf(fn) == pkgPathOf(f.topFrame().fn) {
 			if seen[fn] {
 				return
 			}
@@ -899,7 +935,11 @@ func (f *Frame) callEffects(c *ssa.CallCommon, eff *effects, seen map[*ssa.Funct
 	if isEffectFree(name) {
 		return
 	}
+	writes := writesByteArgs(name)
 	for _, a := range c.Args {
+		if !writes && isByteSlice(a.Type()) {
+			continue
+		}
 		f.typeEffects(a.Type(), eff, 0)
 	}
 }
